@@ -1,12 +1,131 @@
-(* C01 (supervisor core) - INTERIM statement file: the full simulation theorem for mon_C01 is being
-   proved in Sup/RelC01.v; until it lands, this file states what is already machine-checked for every
-   accepted history of the Sup model: the observer's picture (on which the monitor holds_C01 is
-   evaluated) agrees with the model state. *)
+(* C01 Dependency gating: no launch before every depends_on condition is met.
+   This file contains only the property statements; every proof is `exact <lemma>` or a vm_compute witness.
+
+   WHAT THE MONITOR CHECKS (Sup/Monitors.v, mon_C01 / holds_C01), in plain words.  The observer gives every
+   instance a creation index (o_idx, assigned at NewProcess = event ENewInst) and remembers per instance:
+   ended (onProcessEnd(status) was entered and that status was written), succeeded (ended and the reported
+   exit code of its name was 0 at some later moment), its ready line was seen, started (onProcessStart),
+   a stop was requested for it; and per process name: its health was Ready at some time.
+   At EVERY successful Commander.Start() (event ELaunch true) of an instance i, for EVERY dependency (k, c)
+   in the configuration of i's process:  let J be the instances of k created BEFORE i.  Either J is empty
+   (k was not scheduled when i was created), or some instance in J has met c:
+     process_completed              -> it ended
+     process_completed_successfully -> it ended and the exit code reported for k was 0
+     process_healthy                -> the health of k was Ready at some time
+     process_log_ready              -> its ready line was seen
+     process_started                -> it started, or a stop was requested for it, or it entered onProcessEnd.
+   holds_C01 cs evs = true means this check succeeded at every launch in the history evs.
+
+   WHAT IS PROVED.  C01_main_partial: every history accepted by the model Sup (all configurations with unique
+   dependency names per process, all interleavings, unbounded length) satisfies the monitor, PROVIDED the
+   history avoids three scheduling patterns (decidable predicate sched_ok_C01, Sup/LemC01.v: g_unreg, g_newer,
+   g_endov) in which the monitor, as written, is stricter than the code.  NO known-finding window flag
+   (w_commit, w_dup, w_zombie, ...) is needed.  C01_refuted: without that hypothesis the statement is false of
+   the model (machine-checked witness that goes through none of the known windows). *)
 From Coq Require Import List ZArith NArith Bool.
 From PC.Base Require Import Assoc.
-From PC.Sup Require Import Model Monitors RelCore Agreement RelC02.
+From PC.Sup Require Import Model Monitors Sim LemC01 RelC01.
+Import ListNotations.
 
-Theorem C01_observer_agrees_with_model : forall cs ord evs s,
-  accept (init cs ord) evs = Some s -> Rc cs s (final_obs cs evs).
-Proof. exact sup_agreement. Qed.
-Print Assumptions C01_observer_agrees_with_model.
+Theorem C01_main_partial : forall cs ord evs s,
+  wf_confs cs = true ->                      (* dependency names are unique within each process *)
+  accept (init cs ord) evs = Some s ->       (* the history is a behaviour of the model *)
+  sched_ok_C01 cs evs = true ->              (* none of g_unreg / g_newer / g_endov happened *)
+  holds_C01 cs evs = true.
+Proof. exact C01_main_partial_lemma. Qed.
+Print Assumptions C01_main_partial.
+
+(* the same, with the monitor unfolded: position-quantified statement about the history *)
+Theorem C01_declarative : forall cs ord evs s,
+  wf_confs cs = true -> accept (init cs ord) evs = Some s -> sched_ok_C01 cs evs = true ->
+  forall pre th post, evs = pre ++ (th, ELaunch true) :: post ->        (* at every successful launch ... *)
+  let o := fold_left (obs_step cs) pre (obs0 cs) in                     (* (facts observed before it) *)
+  forall i, get th (o_th o) = Some i ->                                 (* ... of instance i ... *)
+  let x := oi_get o i in
+  forall k c, In (k, c) (deps (conf_of cs (o_nm x))) ->                 (* ... for every dependency (k, c) *)
+  older_insts o k (o_idx x) = [] \/                                     (* no instance of k was created before i, or *)
+  exists y, In y (older_insts o k (o_idx x)) /\ met o c y = true.       (* one of them has met c *)
+Proof. exact C01_declarative_lemma. Qed.
+Print Assumptions C01_declarative.
+
+(* ---- the hypothesis sched_ok_C01 is needed: the unrestricted statement is false of the model ---------------- *)
+Definition conf0 (ds : list (name * cond)) : pconf := mkConf ds PNo 0 0 false false false false false false false.
+Definition cs_ref : amap pconf := [(1%N, conf0 []); (2%N, conf0 [(1%N, CCompleted)])].
+(* instance 10 of process 1 is created but not yet registered when instance 20 of process 2 (which depends on
+   process 1) is created, looks process 1 up, finds nothing and launches *)
+Definition evs_ref : list (tid * event) :=
+  [ (0, ENewInst 10 1); (0, ENewInst 20 2); (5, EBegin 20);
+    (5, EDoneGet 1 None); (5, ELookupMid 1); (5, ERegGet 1 None); (5, EDoneGet 1 None); (5, EDepWait 1 None);
+    (5, ERunChecked false); (5, EStarted); (5, EState 20 SRunning); (5, ELaunch true) ]%N.
+
+Theorem C01_refuted : exists cs ord evs s,
+  wf_confs cs = true /\ accept (init cs ord) evs = Some s /\ no_windows cs evs = true /\ holds_C01 cs evs = false.
+Proof.
+  exists cs_ref, false, evs_ref.
+  destruct (accept (init cs_ref false) evs_ref) as [s|] eqn:E; [|vm_compute in E; discriminate E].
+  exists s. repeat split; vm_compute; reflexivity.
+Qed.
+Print Assumptions C01_refuted.
+
+(* ... and that history is one that the hypothesis excludes *)
+Example C01_refuted_excluded : sched_ok_C01 cs_ref evs_ref = false.
+Proof. vm_compute. reflexivity. Qed.
+
+(* Second witness (finding): the dependency is RESTARTED between the creation of the dependent and its lookup.
+   Process 2 depends on process 1 with process_log_ready.  Instance 10 of process 1 completes without ever
+   printing its ready line and is deregistered; process 1 is started again as instance 11; instance 20 of
+   process 2 (created between 10 and 11) resolves process 1 to the NEWER instance 11, waits for 11's ready line
+   and launches.  The property text is respected (process 1 did print its ready line before the launch), but
+   mon_C01 only accepts instances created before 20 and fails; no known window is involved.  This is the
+   pattern g_newer. *)
+Definition cs_new : amap pconf :=
+  [(1%N, mkConf [] PNo 0 0 false false false true false false false); (2%N, conf0 [(1%N, CLogReady)])].
+Definition evs_new : list (tid * event) :=
+  [ (0, ENewInst 10 1); (0, EState 10 SPending); (0, ERegAdd 10 1); (1, EBegin 10);
+    (1, ERunChecked false); (1, EStarted); (1, EState 10 SRunning); (1, ELaunch true);
+    (0, ENewInst 20 2); (0, ERegAdd 20 2); (2, EBegin 20); (2, EDoneGet 1 None); (2, ELookupMid 1);
+    (9, ECmdExit 10 0%Z); (1, EWaitReturn 0%Z); (1, EExitCode 0%Z); (1, ERestartDecision false);
+    (1, EProcEnd 10 SCompleted); (1, EState 10 SCompleted); (1, EProcEnded 10 SCompleted); (1, ERunReturned 0%Z);
+    (1, EDoneAdd 10); (1, EInstDone); (1, EInstExit); (1, ERegDel 10); (1, EInstGone);
+    (0, ENewInst 11 1); (0, ERegAdd 11 1); (3, EBegin 11); (3, ERunChecked false); (3, EStarted);
+    (3, EState 11 SRunning); (3, ELaunch true);
+    (2, ERegGet 1 (Some 11)); (2, EDepWait 1 (Some 11));
+    (9, EOutLine 11 true); (9, ELogReady 11);
+    (2, EDepDone 1 true); (2, ERunChecked false); (2, EStarted); (2, EState 20 SRunning); (2, ELaunch true) ]%N.
+
+Theorem C01_refuted_newer_instance :
+  wf_confs cs_new = true /\ (exists s, accept (init cs_new false) evs_new = Some s) /\
+  no_windows cs_new evs_new = true /\ holds_C01 cs_new evs_new = false /\
+  snd (og_final cs_new evs_new) = mkG None false true false.      (* only g_newer is set *)
+Proof.
+  split; [vm_compute; reflexivity|]. split.
+  - destruct (accept (init cs_new false) evs_new) as [s|] eqn:E; [eauto|vm_compute in E; discriminate E].
+  - repeat split; vm_compute; reflexivity.
+Qed.
+Print Assumptions C01_refuted_newer_instance.
+
+(* ---- non-vacuity: a 31-event accepted history that meets all hypotheses; process 2 waits for process 1 to
+   complete, process 1 runs and exits with 0, then process 2 is released and launches ------------------------------ *)
+Definition evs_ok : list (tid * event) :=
+  [ (0, EApiBegin OpRun);
+    (0, ENewInst 10 1); (0, EState 10 SPending); (0, ERegAdd 10 1); (0, ESpawn 10 1);
+    (0, ENewInst 20 2); (0, EState 20 SPending); (0, ERegAdd 20 2); (0, ESpawn 20 2);
+    (0, ERunSpawned);
+    (1, EBegin 10); (1, ERunChecked false); (1, EStarted); (1, EState 10 SRunning); (1, ELaunch true);
+    (2, EBegin 20); (2, EDoneGet 1 None); (2, ELookupMid 1); (2, ERegGet 1 (Some 10)); (2, EDepWait 1 (Some 10));
+    (9, ECmdExit 10 0%Z);
+    (1, EWaitReturn 0%Z); (1, EExitCode 0%Z); (1, ERestartDecision false); (1, EProcEnd 10 SCompleted);
+    (1, EState 10 SCompleted);
+    (2, EDepDone 1 true); (2, ERunChecked false); (2, EStarted); (2, EState 20 SRunning); (2, ELaunch true) ]%N.
+
+Example C01_example :
+  wf_confs cs_ref = true /\
+  (exists s, accept (init cs_ref false) evs_ok = Some s) /\
+  sched_ok_C01 cs_ref evs_ok = true /\
+  length evs_ok = 31 /\
+  holds_C01 cs_ref evs_ok = true.
+Proof.
+  split; [vm_compute; reflexivity|]. split.
+  - destruct (accept (init cs_ref false) evs_ok) as [s|] eqn:E; [eauto|vm_compute in E; discriminate E].
+  - repeat split; vm_compute; reflexivity.
+Qed.
